@@ -2,8 +2,9 @@ package rules
 
 import (
 	"fmt"
-	"os"
+	"go/token"
 	"go/types"
+	"os"
 	"sort"
 	"strings"
 
@@ -161,6 +162,9 @@ func C01(p *an.Prog, r *an.Report) {
 			for _, ret := range flow.OkReturns(parser) {
 				sl := &an.Slicer{P: p, Root: parser, Through: an.AllArgs, MaxDepth: 12}
 				for _, l := range sl.LeavesOfField(ret.Results[0], "."+f) {
+					if os.Getenv("C01LEAVES") != "" && !(l.Kind == an.LParam && l.Param == 0) && !l.LenOnly {
+						fmt.Fprintf(os.Stderr, "LEAF %s.%s: %s via %v\n", wp.key, f, l.String(), l.Via)
+					}
 					if l.Kind == an.LParam && l.Param == 0 && !l.LenOnly {
 						pFields[f] = true
 						if pMarks[f] == nil {
@@ -197,6 +201,7 @@ func C01(p *an.Prog, r *an.Report) {
 	c01NoReorder(p, r)
 	c01DistinctElements(p, r, "C01.R9")
 	c01NoTruncatingCopy(p, r)
+	c01NoUnreadSkip(p, r, "C01.R11")
 	c01Block(p, r, "C01.R5")
 	c11Threshold(p, r) // R6 (same rule as C11.M5)
 }
@@ -224,65 +229,107 @@ func c01Order(p *an.Prog, r *an.Report, pairs []wirePair) {
 			}
 		}
 		sOrder, raw := serFieldOrder(p, wp.ser)
-		pOrder, posOf, ties := parAssignOrder(p, parser, fields)
-		// random-access parsers (several field-assigning steps read from the original input rather
-		// than from a threaded cursor) assign fields in an order unrelated to the wire; their
-		// layout is decided by R5 instead
-		if n := directInputSteps(parser, posOf); n >= 2 {
-			notExtracted = append(notExtracted, fmt.Sprintf("%s (random-access parser: %d field-assigning steps read the original input; layout decided by R5)", wp.key, n))
-			continue
-		}
-		desc := map[string]string{}
-		for f, q := range posOf {
-			desc[f] = "step " + strings.TrimSuffix(q, ".") + " of " + parser.Name()
-		}
-		// compare on the fields both sides could place
-		inS := map[string]bool{}
-		for _, f := range sOrder {
-			inS[f] = true
-		}
-		inP := map[string]bool{}
-		for _, f := range pOrder {
-			inP[f] = true
-		}
-		var a, b []string
-		for _, f := range sOrder {
-			if inP[f] {
-				a = append(a, f)
+		for vi, po := range parAssignOrders(p, parser, fields) {
+			pOrder, posOf, ties := po.order, po.pos, po.ties
+			okey := wp.key + "/field-order"
+			if vi > 0 {
+				okey = fmt.Sprintf("%s/field-order#%d", wp.key, vi+1)
 			}
-		}
-		for _, f := range pOrder {
-			if inS[f] {
-				b = append(b, f)
+			// random-access parsers (several field-assigning steps read from the original input rather
+			// than from a threaded cursor) assign fields in an order unrelated to the wire; their
+			// layout is decided by R5 instead
+			if n := directInputSteps(parser, posOf); n >= 2 {
+				notExtracted = append(notExtracted, fmt.Sprintf("%s (random-access parser: %d field-assigning steps read the original input; layout decided by R5)", wp.key, n))
+				continue
 			}
+			desc := map[string]string{}
+			for f, q := range posOf {
+				desc[f] = "step " + strings.TrimSuffix(q, ".") + " of " + parser.Name()
+			}
+			// compare on the fields both sides could place
+			inS := map[string]bool{}
+			for _, f := range sOrder {
+				inS[f] = true
+			}
+			inP := map[string]bool{}
+			for _, f := range pOrder {
+				inP[f] = true
+			}
+			var a, b []string
+			for _, f := range sOrder {
+				if inP[f] {
+					a = append(a, f)
+				}
+			}
+			for _, f := range pOrder {
+				if inS[f] {
+					b = append(b, f)
+				}
+			}
+			if len(a) < 2 || len(ties) > 0 || len(a) < len(fields)-1 {
+				notExtracted = append(notExtracted, fmt.Sprintf("%s (serializer order: %s; parser order: %s; ties: %s)", wp.key, strings.Join(sOrder, ","), strings.Join(pOrder, ","), strings.Join(ties, " ")))
+				continue
+			}
+			extracted++
+			var facts []string
+			facts = append(facts, "serializer appends: "+raw)
+			for _, f := range b {
+				facts = append(facts, "parser assigns "+f+" at "+desc[f])
+			}
+			r.Check(strings.Join(a, ",") == strings.Join(b, ","), "C01.R3", okey, p.FnPos(wp.ser),
+				"fields are serialised in the order in which the parser reads them",
+				append([]string{"serializer order: " + strings.Join(a, ","), "parser order: " + strings.Join(b, ",")}, facts...)...)
 		}
-		if len(a) < 2 || len(ties) > 0 || len(a) < len(fields)-1 {
-			notExtracted = append(notExtracted, fmt.Sprintf("%s (serializer order: %s; parser order: %s; ties: %s)", wp.key, strings.Join(sOrder, ","), strings.Join(pOrder, ","), strings.Join(ties, " ")))
-			continue
-		}
-		extracted++
-		var facts []string
-		facts = append(facts, "serializer appends: "+raw)
-		for _, f := range b {
-			facts = append(facts, "parser assigns "+f+" at "+desc[f])
-		}
-		r.Check(strings.Join(a, ",") == strings.Join(b, ","), "C01.R3", wp.key+"/field-order", p.FnPos(wp.ser),
-			"fields are serialised in the order in which the parser reads them",
-			append([]string{"serializer order: " + strings.Join(a, ","), "parser order: " + strings.Join(b, ",")}, facts...)...)
 	}
 	r.Analysed["structures_with_extracted_order"] = extracted
 	r.Analysed["structures_order_not_extracted"] = notExtracted
 }
 
-
 var _ = fmt.Sprint
 
-// directInputSteps counts the distinct root-level calls that assign fields and are given the
-// parser's input parameter itself.
+// directInputSteps counts the distinct calls that assign fields and are given the parser's input
+// parameter itself. When every field is assigned below one call that is handed the input (the
+// parser delegates to a helper), the count is taken inside that helper.
 func directInputSteps(parser *ssa.Function, posOf map[string]string) int {
+	var chains [][]int
+	for _, pos := range posOf {
+		var ch []int
+		for _, part := range strings.Split(strings.TrimSuffix(pos, "."), ".") {
+			var k int
+			if _, err := fmt.Sscanf(part, "%05d", &k); err != nil {
+				break
+			}
+			ch = append(ch, k)
+		}
+		if len(ch) > 0 {
+			chains = append(chains, ch)
+		}
+	}
+	return directInputStepsIn(parser, 0, chains, 0)
+}
+
+// inputAnchored: v is the input itself or a window of it (a slice of a slice ... of the input), as
+// opposed to a cursor produced by an earlier parsing step.
+func inputAnchored(v ssa.Value, input *ssa.Parameter, depth int) bool {
+	if depth > 4 {
+		return false
+	}
+	if v == ssa.Value(input) {
+		return true
+	}
+	if s, ok := v.(*ssa.Slice); ok {
+		return inputAnchored(s.X, input, depth+1)
+	}
+	return false
+}
+
+func directInputStepsIn(fn *ssa.Function, input int, chains [][]int, depth int) int {
+	if depth > 4 || input >= len(fn.Params) {
+		return 0
+	}
 	idx := map[int]ssa.Instruction{}
 	n := 0
-	for _, b := range rpo(parser) {
+	for _, b := range rpo(fn) {
 		for _, in := range b.Instrs {
 			idx[n] = in
 			n++
@@ -290,17 +337,35 @@ func directInputSteps(parser *ssa.Function, posOf map[string]string) int {
 	}
 	seen := map[int]bool{}
 	count := 0
-	for _, pos := range posOf {
-		var first int
-		if _, err := fmt.Sscanf(pos, "%05d.", &first); err != nil || seen[first] {
+	var only *ssa.Call
+	onlyArg := -1
+	for _, ch := range chains {
+		first := ch[0]
+		if seen[first] {
 			continue
 		}
 		seen[first] = true
 		if c, ok := idx[first].(*ssa.Call); ok {
-			for _, a := range c.Call.Args {
-				if a == ssa.Value(parser.Params[0]) {
+			for ai, a := range c.Call.Args {
+				if inputAnchored(a, fn.Params[input], 0) {
 					count++
+					only, onlyArg = c, ai
 					break
+				}
+			}
+		}
+	}
+	if len(seen) == 1 && count == 1 {
+		if callee := only.Call.StaticCallee(); callee != nil && an.InLib(callee) && len(callee.Blocks) > 0 {
+			var sub [][]int
+			for _, ch := range chains {
+				if len(ch) > 1 {
+					sub = append(sub, ch[1:])
+				}
+			}
+			if len(sub) > 0 {
+				if m := directInputStepsIn(callee, onlyArg, sub, depth+1); m > count {
+					return m
 				}
 			}
 		}
@@ -432,7 +497,7 @@ type kacRange struct {
 func c01Block(p *an.Prog, r *an.Report, rule string) {
 	pkg := p.Pkg("keys_and_cert")
 	if pkg == nil {
-		r.Fail(rule+": package keys_and_cert not found")
+		r.Fail(rule + ": package keys_and_cert not found")
 		return
 	}
 	callers := map[*ssa.Function][]*ssa.Call{}
@@ -907,4 +972,169 @@ func c01NoTruncatingCopy(p *an.Prog, r *an.Report) {
 		}
 	}
 	r.Analysed["copies on serializer paths"] = n
+}
+
+// c01NoUnreadSkip (R11): on a parser path a cursor is never advanced past bytes that nothing
+// looked at. `rest = x[n:]` with a non-zero n drops x[:n]; when no other use of x reads it (indexing,
+// slicing with an upper bound, passing it to a call, storing or returning it) those bytes reach no
+// field and the serializer cannot reproduce them, so Bytes() differs from the consumed input for
+// every input in which they are present.
+func c01NoUnreadSkip(p *an.Prog, r *an.Report, rule string) {
+	callers := map[*ssa.Function][]*ssa.Call{}
+	for _, fn := range p.RepoFns {
+		for _, b := range fn.Blocks {
+			for _, in := range b.Instrs {
+				if c, ok := in.(*ssa.Call); ok {
+					if g := c.Call.StaticCallee(); g != nil {
+						callers[g] = append(callers[g], c)
+					}
+				}
+			}
+		}
+	}
+	// aliases of x inside its function: the loads of the same local variable, x itself
+	var isRead func(x ssa.Value, skip ssa.Instruction, depth int) bool
+	isRead = func(x ssa.Value, skip ssa.Instruction, depth int) bool {
+		if depth > 3 {
+			return true
+		}
+		vals := []ssa.Value{x}
+		if u, ok := x.(*ssa.UnOp); ok && u.Op == token.MUL {
+			if a, ok := u.X.(*ssa.Alloc); ok {
+				vals = nil
+				for _, ref := range *a.Referrers() {
+					if l, ok := ref.(*ssa.UnOp); ok && l.Op == token.MUL {
+						vals = append(vals, l)
+					}
+					if st, ok := ref.(*ssa.Store); ok && st.Addr == ssa.Value(a) {
+						// what is stored was produced (and possibly read) elsewhere
+						if isRead(st.Val, skip, depth+1) {
+							return true
+						}
+					}
+				}
+			} else {
+				return true // loaded from a field, global or element: other readers unknown
+			}
+		}
+		for _, v := range vals {
+			if v.Referrers() == nil {
+				return true
+			}
+			for _, ref := range *v.Referrers() {
+				switch y := ref.(type) {
+				case *ssa.DebugRef:
+				case *ssa.Slice:
+					if ssa.Instruction(y) == skip {
+						continue
+					}
+					if y.X == v && y.High == nil && y.Low != nil {
+						continue // another suffix of the same cursor
+					}
+					return true
+				case *ssa.Call:
+					if ssa.Instruction(y) == skip {
+						continue // the call through which we arrived here
+					}
+					if bi, ok := y.Call.Value.(*ssa.Builtin); ok && (bi.Name() == "len" || bi.Name() == "cap") {
+						continue
+					}
+					return true
+				case *ssa.Return:
+					// handed back unchanged on another path: not a look at its contents
+				case *ssa.Store:
+					if y.Val == v {
+						if a, ok := y.Addr.(*ssa.Alloc); ok {
+							// kept in a local variable: its loads decide
+							for _, r2 := range *a.Referrers() {
+								if l, ok := r2.(*ssa.UnOp); ok && l != v && isRead(l, skip, depth+1) {
+									return true
+								}
+							}
+							continue
+						}
+					}
+					return true
+				default:
+					return true
+				}
+			}
+		}
+		switch src := x.(type) {
+		case *ssa.Parameter:
+			fn := src.Parent()
+			idx := -1
+			for i, q := range fn.Params {
+				if q == src {
+					idx = i
+				}
+			}
+			cs := callers[fn]
+			if len(cs) == 0 || idx < 0 {
+				return true // entry point: the caller owns the bytes
+			}
+			for _, c := range cs {
+				if idx >= len(c.Call.Args) || isRead(c.Call.Args[idx], c, depth+1) {
+					return true
+				}
+			}
+			return false
+		case *ssa.Phi:
+			for _, e := range src.Edges {
+				if sv, isV := skip.(ssa.Value); (!isV || e != sv) && isRead(e, skip, depth+1) {
+					return true
+				}
+			}
+			return false
+		case *ssa.Slice, *ssa.Extract, *ssa.Call:
+			return false // a fresh window or a remainder handed back by a reader: only the uses above count
+		}
+		return true
+	}
+	seenFn := map[*ssa.Function]bool{}
+	var bad []string
+	n := 0
+	for _, wp := range wirePairs(p) {
+		clos := p.Reachable(p.CG(), wp.parsers, func(f *ssa.Function) bool { return an.InLib(f) })
+		var fns []*ssa.Function
+		for f := range clos {
+			if an.InLib(f) && !seenFn[f] && len(f.Blocks) > 0 {
+				fns = append(fns, f)
+			}
+		}
+		sort.Slice(fns, func(i, j int) bool { return an.FnKey(fns[i]) < an.FnKey(fns[j]) })
+		for _, fn := range fns {
+			seenFn[fn] = true
+			for _, blk := range fn.Blocks {
+				for _, in := range blk.Instrs {
+					sl, ok := in.(*ssa.Slice)
+					if !ok || sl.High != nil || sl.Low == nil || !isByteSliceType(sl.X.Type()) {
+						continue
+					}
+					if c, ok := sl.Low.(*ssa.Const); ok && c.Value != nil && c.Int64() == 0 {
+						continue
+					}
+					n++
+					if !isRead(sl.X, sl, 0) {
+						bad = append(bad, fmt.Sprintf("%s: %s drops bytes of a cursor nothing reads (%s)", p.Pos(sl.Pos()), sl.String(), an.FnKey(fn)))
+					}
+				}
+			}
+		}
+	}
+	r.Analysed["cursor advances on parser paths"] = n
+	if n < 30 {
+		r.Fail("%s: only %d cursor advances found on parser paths (expected >= 30): the detector no longer sees the parsers", rule, n)
+	}
+	sort.Strings(bad)
+	r.Check(len(bad) == 0, rule, "parsers/no-unread-skip", "-", "no parser advances its cursor past bytes that are never read (consumed bytes all reach a field or a check)", bad...)
+}
+
+func isByteSliceType(t types.Type) bool {
+	s, ok := t.Underlying().(*types.Slice)
+	if !ok {
+		return false
+	}
+	b, ok := s.Elem().Underlying().(*types.Basic)
+	return ok && b.Kind() == types.Uint8
 }
